@@ -1,19 +1,18 @@
 (* Recorded findings for C19 (findings_proposed/C19.txt), as they stand after the repairs of the boolean, safe_area, fps,
    colour, program_start_tc, max_row_count and font-family decoders.  The README acceptance table (Spec/CliSpec.v
-   documented) is still false of the faithful model in two ways, and the way a value is rejected in a third; each
-   refutation names concrete (key, JSON value) pairs.
+   documented) is still false of the faithful model in two ways; each refutation names concrete (key, JSON value) pairs.
    If this file stops compiling a finding is stale, which the check reports as such (it is not a violation). *)
 From Coq Require Import String.
 From TT Require Import Base.Prelude Base.CliTypes Gen.CliUnicode Model.Cli Spec.CliSpec.
 
-(* undocumented-values-accepted (what is left): log_level takes any logging level name or integer, document_lang any
+(* undocumented-values-accepted (what is left): log_level takes any logging level name, document_lang any
    string, scc_reader.text_align / "TCP" / "MNR" any letter case, program_start_tc any separators (drop-frame pattern with an
    unescaped dot), colours any letter case of a name and white space around rgb() components (both pinned by
    test_imsc_color_parser), font_stack any string with a family-like token *)
 Theorem C19_config_accepts_lenient_refuted :
   Forall (fun kv => in_table (fst kv) (snd kv) = true /\ accepts (fst kv) (snd kv) = true /\ documented (fst kv) (snd kv) = false /\
                     trigger_lenient (fst kv) (snd kv) = true)
-    [(KLogLevel, JInt 10); (KLogLevel, JStr (T "DEBUG")); (KDocumentLang, JStr (T "not a tag")); (KSccTextAlign, JStr (T "LEFT"));
+    [(KLogLevel, JStr (T "DEBUG")); (KDocumentLang, JStr (T "not a tag")); (KSccTextAlign, JStr (T "LEFT"));
      (KStartTc, JStr (T "tcp")); (KStartTc, JStr (T "10x00y00z00")); (KMaxRowCount, JStr (T "mnr"));
      (KColor, JStr (T "RED")); (KBgColor, JStr (T "rgb( 1 , 2 , 3 )")); (KFontStack, JStr (T "a,,b")); (KFontStack, JStr (T "'a"))].
 Proof. repeat constructor. Qed.
@@ -23,7 +22,8 @@ Theorem C19_formerly_accepted_now_rejected :
     [(KTextFormatting, JStr (T "no")); (KCueId, JInt 0); (KProgressBar, JStr (T "false")); (KPreserveTextAlign, JArr [JInt 0]);
      (KSafeArea, JStr (T "10")); (KSafeArea, JFloat 107 10); (KSafeArea, JBool true); (KFps, JStr (T "-25/1")); (KFps, JStr (T "0/1"));
      (KFps, JStr (T " 25 / 1 ")); (KFps, JStr (T "2_5/1")); (KColor, JStr (T "rgb(300,0,0)")); (KBgColor, JStr (T "#FF0000zz"));
-     (KColor, JStr (T "rgb(1,2,3)x")); (KStartTc, JStr (T "10:00:00:00xyz")); (KMaxRowCount, JBool true)].
+     (KColor, JStr (T "rgb(1,2,3)x")); (KStartTc, JStr (T "10:00:00:00xyz")); (KMaxRowCount, JBool true);
+     (KLogLevel, JInt 10); (KLogLevel, JBool true)].
 Proof. repeat constructor. Qed.
 
 (* documented-values-rejected (what is left): digit strings longer than CPython's int() limit *)
@@ -34,26 +34,14 @@ Proof. exists KFps, (JStr (rep 48 4300 ++ T "25/1")). vm_compute. repeat split; 
 Theorem C19_short_family_accepted : accepts KFontStack (JStr (T "a")) = true /\ accepts KFontStack (JStr (T "x, y")) = true.
 Proof. split; reflexivity. Qed.
 
-(* rejection-not-a-value-error: three keys whose value is used before any decoder has looked at its type; the rejection is
-   an AttributeError / TypeError from inside the library instead of the decoders' ValueError.  (stl_reader.program_start_tc
-   and font_stack were two more until they were repaired: C19_example_rejections in Properties/C19.v.) *)
-Theorem C19_config_rejection_is_value_error_refuted :
-  Forall (fun kve => decode (fst (fst kve)) (snd (fst kve)) = Raise (snd kve) /\ snd kve <> EValue /\
-                     trigger_escape (fst (fst kve)) (snd (fst kve)) = true)
-    [(KSccTextAlign, JBool true, EAttribute); (KSccTextAlign, JInt 5, EAttribute); (KSccTextAlign, JArr [JStr (T "left")], EAttribute);
-     (KSccTextAlign, JNull, EAttribute); (KDocumentLang, JInt 5, EType); (KDocumentLang, JBool true, EType);
-     (KLogLevel, JFloat 5 2, EType); (KLogLevel, JArr [], EType); (KLogLevel, JObj [], EType)].
-Proof. repeat constructor; discriminate. Qed.
-
-(* observation (not a separate finding): README does not say what an explicit null means outside the colours; for five
-   keys it is "not specified", for the true | false keys and safe_area it is now an error like any other non-boolean /
-   non-integer, for scc_reader.text_align it is an uncaught AttributeError *)
+(* observation (not a separate finding): README does not say what an explicit null means outside the colours; for seven
+   keys it is "not specified", for the true | false keys, safe_area and scc_reader.text_align it is an error like any
+   other value of the wrong type: a ValueError *)
 Theorem C19_null_handling :
-  decode KSccTextAlign JNull = Raise EAttribute /\ decode KSafeArea JNull = Raise EValue /\
+  decode KSccTextAlign JNull = Raise EValue /\ decode KSafeArea JNull = Raise EValue /\
   decode KCueId JNull = Raise EValue /\ decode KFps JNull = Ok CNone /\ decode KColor JNull = Ok CNone /\
-  decode KLogLevel JNull = Ok CNone /\ decode KStartTc JNull = Ok CNone.
+  decode KLogLevel JNull = Ok CNone /\ decode KDocumentLang JNull = Ok CNone /\ decode KStartTc JNull = Ok CNone.
 Proof. repeat split; reflexivity. Qed.
 
 Print Assumptions C19_config_accepts_lenient_refuted.
 Print Assumptions C19_config_accepts_rejected_refuted.
-Print Assumptions C19_config_rejection_is_value_error_refuted.
